@@ -72,6 +72,10 @@ PROPS = {
                 text="The real meek_lite client (real net/http transport over the simulated network, runtime select order from the seeded seam) against a reference HTTP/1.1 server that records bodies, session ids and overlap and answers 200 with tape-sized slices (empty, small, partial, full 64 KiB) of a position-coded downstream stream; application writes of 1 byte .. 3 x 65536 with pauses up to 7 s (so the 100 ms .. 5 s poll back-off runs), Close at a tape-chosen instant; oracle: request bodies in order are exactly the written stream (complete after 20 quiet virtual minutes if not closed), Read delivers exactly the response bodies, bodies <= 65536, one session id, never two requests in flight, after Close Write fails, Read fails after a bounded drain, at most one more request and none in the following hour.",
                 note="net/http's internal goroutines are not named tasks; they meet the simulation only through simnet operations. Fault-free server only (non-200 / dropped connections are exercised in C10).",
                 technique=TECH + "reference HTTP server with conservation oracle under seeded scheduling, select order and virtual-time polling"),
+    "C11": dict(engine="woven", quick=40, thorough=600, level="exploration", design="DESIGN.md section 4, C11",
+                text="Sequential: tape-generated histories of up to 24 (value, time step) operations over 2-6 values with steps 0, 1 ns, ttl/3, ttl-1, ttl, ttl+1, 10 ttl, random and jumps back before the oldest entry, three TTLs, in lockstep with a reference insertion-ordered expiring set. Capacity: 102400+k distinct values then probes of the newest / a middle / the oldest value. Concurrent: 2-4 caller tasks x 1-3 TestAndSet calls on 1-3 values with the filter woven (a preemption point before every statement, simsync mutex); histories stamped with the global event sequence number are checked for linearizability against the sequential model with porcupine, and with identical timestamps exactly one submission per value must be told 'new'.",
+                note="Trusted: simulator, weave (statement-level yields, sync -> simsync), porcupine v1.3.0, the reference set model. Partial backward clock steps are not generated (undefined by the statement). Data races inside one statement are out of reach.",
+                technique=TECH + "lockstep reference model plus statement-level interleaving search with porcupine linearizability check"),
     "C17": dict(engine="wire", quick=30, thorough=600, level="exploration", design="DESIGN.md section 4, C17",
                 text="A step-by-step reference SOCKS5 client (IPv4 / IPv6 incl. v4-mapped / domains of 1..255 arbitrary bytes, any port, argument maps with escaped ';' '=' '\\', 8-bit bytes, repeated keys, every username/password spill point) under all segmentations with pauses inside the 5 s budget, plus 19 malformed variants (bad versions, nmethods 0, no acceptable method, bad auth version, ulen/plen 0, bad escapes, empty key, key without value, trailing ';', unknown atyp, zero-length domain, BIND/UDP, non-zero RSV, pipelined trailing bytes, truncation, silence > 5 s); oracle: exact Target/Args for conforming exchanges, error plus (nothing | the stage's RFC failure reply) for malformed ones, deadline enforced and disarmed.",
                 note="Trusted: simulator, the strict pt-spec argument encoder in the harness. IPv6 targets are compared as addresses (net.IP.Equal), domain targets byte for byte.",
@@ -90,6 +94,9 @@ ENGINES = {
     # name -> dict(src: dir under harness/, pkg: (virtual) package dir inside the repo module, weave: file specs for /verif/weave)
     "wire": dict(src="wire", pkg="zz_verif/wire"),
     "relay": dict(src="relay", pkg="obfs4proxy"),
+    "woven": dict(src="woven", pkg="zz_verif/woven", weave=[
+        dict(path="common/replayfilter/replay_filter.go", yields=True, go=True, sync=True),
+    ]),
     "disk": dict(src="disk", pkg="zz_verif/disk", weave=[
         dict(path="transports/obfs4/statefile.go", os=True),
         dict(path="transports/scramblesuit/handshake_ticket.go", os=True),
@@ -428,6 +435,7 @@ NOT_APPLICABLE = {
     "C20": "Log scrubbing is a pure function of an error value or address string; nothing in it depends on scheduling, time, I/O or faults.",
 }
 ENGINE_KIND = {
+    "woven": "B2: listed repository files rewritten at build time by /verif/weave (yield before every statement, go statements as named tasks, sync -> simsync) and substituted through the build overlay; everything else as B1",
     "relay": "B1 with in-package injection: harness test files are overlaid into package main of obfs4proxy so copyLoop and termMonitor run unmodified; runtime select order comes from the seeded seam",
     "disk": "B2 (import shim only): statefile.go and handshake_ticket.go compiled with os -> verifsim/simos (in-memory disk with kill/torn-write/EIO/ENOSPC injection at every step); everything else as B1",
     "wire": "B1: unmodified repository packages inside a testing/synctest bubble on the simulated network/clock/entropy; park-release scheduler driven by a seeded choice tape",
